@@ -559,7 +559,7 @@ PROPS["C20"] = dict(
 # ---------------------------------------------------------------- C02 C03 C04 (threads)
 CONC_TRUST = OBS_TRUST + [
     "std::sync::RwLock modelled as readers/writer exclusion with writer preference (new readers wait while a writer is queued, as the futex implementation does); fairness beyond that, memory ordering (all steps sequentially consistent) and the OS scheduler are outside the model",
-    "the eyeball_verif pause points (commit b6ca4dd, adapted in 8ebfecc) change timing only; forced schedules are driven by a director thread; a thread the model predicts to be blocked gets a 40 ms confirmation wait, a thread predicted to advance gets 10 s"]
+    "the eyeball_verif pause points (commit b6ca4dd, adapted in 8ebfecc) change timing only; forced schedules are driven by a director thread; a thread the model predicts to be blocked gets a 40 ms confirmation wait, a thread predicted to advance gets 4 s"]
 
 
 def conc_nontriv(case, obs):
@@ -591,6 +591,12 @@ def conc_streams(orc, with_lin=False, with_seq=None):
                              lambda c, o: True, False,
                              "4 x %d free-running rounds of one next_now racing one set; afterwards the subscriber must end on the final value (a value and its version must be taken under one lock)" % r,
                              lambda c, o: c.split()[0], oracles={"racefinal"}))
+            r2, r3 = (60, 3000) if q else (1500, 60000)
+            st.append(Stream("free-running-order", "race",
+                             ["kind=pollstream rounds=%d" % r2 for _ in range(4)] + ["kind=setifeq rounds=%d" % r3 for _ in range(4)],
+                             lambda c, o: True, False,
+                             "4 x %d rounds of a writer storing 300 values back to back while the subscriber polls (every value handed out must be newer than the previous one, the subscriber ends on the final value and is then Pending), and 4 x %d rounds of two concurrent set_if_not_eq with equal values (exactly one of them stores)" % (r2, r3),
+                             lambda c, o: c.split()[0], oracles={"racefinal", "raceorder"}))
         if race_orc:
             r = 2500 if q else 50000
             st.append(Stream("free-running-races", "race",
